@@ -40,7 +40,7 @@ def features(r: dict[str, Any]) -> str:
     shp = r.get("shape") or r.get("shape_a") or []
     if any(isinstance(d, str) for d in shp):
         f.append("symbolic")
-    for k in ("variant", "sigmoid_is_output", "sigmoid_second_consumer", "rsqrt_is_output", "rsqrt_second_consumer", "reshape_is_output", "second_inverse", "odd_perm_at", "scale_const", "not_is_output", "mask_out", "input_is_output", "unused_fn_input", "outer_also_transposed"):
+    for k in ("variant", "sigmoid_is_output", "sigmoid_second_consumer", "sigmoid_captured_by_if", "rsqrt_is_output", "rsqrt_second_consumer", "rsqrt_captured_by_if", "sqrt_captured_by_if", "reshape_is_output", "second_inverse", "odd_perm_at", "scale_const", "not_is_output", "mask_out", "input_is_output", "unused_fn_input", "outer_also_transposed"):
         v = r.get(k)
         if v not in (None, False, "plain"):
             f.append(k if isinstance(v, bool) else f"{k}={v}")
